@@ -88,8 +88,9 @@ def make(client, history):
     return h
 
 
-def h_goaway_discards(client, pending_ops):
-    """receiving GOAWAY discards bytes not yet handed to the application"""
+def h_goaway_discards(client, pending_ops, closed_first=False):
+    """receiving GOAWAY discards bytes not yet handed to the application -- also when the
+    connection had been closed already (our own GOAWAY still waiting in the buffer)"""
     def h():
         with h2h.native():
             ctx = ops.Ctx(client)
@@ -101,6 +102,17 @@ def h_goaway_discards(client, pending_ops):
             ctx.me.data_to_send()
         for op in pending_ops:
             ops.run_op(ctx, op, symbolic=True)      # not drained: pending output
+        if closed_first:
+            how = F.sym_choice('closed_by', ['close_connection', 'connection-error',
+                                             'goaway-then-close_connection'])
+            if how == 'close_connection':
+                ops.run_op(ctx, ('close',), symbolic=True)
+            elif how == 'connection-error':
+                o = ops.run_op(ctx, ('CONT', 1), symbolic=True)
+                check(o.cls[0] == 'conn_error', 'harness:no-connection-error', o.cls)
+            else:
+                ops.run_op(ctx, ('GOAWAY',), symbolic=True)
+                ops.run_op(ctx, ('close',), symbolic=True)
         pending = len(ctx.me._data_to_send)
         check(pending > 0, 'harness:nothing-pending', None)
         out = ops.run_op(ctx, ('GOAWAY',), symbolic=True)
@@ -131,6 +143,8 @@ def shards(tier, seed):
                              params={'history': [list(o) for o in hist]}))
         out.append(Shard('goaway_discards/%s/ping' % role,
                          h_goaway_discards(client, [('ping',)]), expect=['goaway']))
+        out.append(Shard('goaway_discards/%s/closed-before' % role,
+                         h_goaway_discards(client, [('ping',)], True), expect=['goaway']))
         out.append(Shard('goaway_discards/%s/data+ping' % role,
                          h_goaway_discards(client, [('send_data', 1, False), ('ping',),
                                                     ('wu', 0)]), expect=['goaway']))
